@@ -162,11 +162,11 @@ def run(ck, fb):
     r = ck.main(FS + 'replicate_to_state_machine', 'R07e')
     if r:
         sd = util.sends(r, r'StateApplyRequest$', 'ApplyBatchRequest')
-        ck.require(len(sd) == 1 and util.awaited(r, sd[0][0]), 'R07e', 'replicate_to_state_machine:ApplyBatchRequest', r.where(), 'batch not sent')
+        ck.require(len(sd) >= 1 and all(util.awaited(r, _x[0]) for _x in sd), 'R07e', 'replicate_to_state_machine:ApplyBatchRequest', r.where(), 'batch not sent')
         ps = r.calls(r'Vec::<T, A>::push$')
         ck.require(len(ps) == 1 and ps[0].bb in cfg.reach_from(r, [r.blocks[ps[0].bb]['t']['t']]), 'R07e', 'replicate_to_state_machine:every-entry', r.where(),
                    'not every replicated entry is pushed into the batch')
     e = ck.main(FS + 'apply_entry_to_state_machine', 'R07e')
     if e:
         sd = util.sends(e, r'StateApplyAsyncRequest$', 'ApplyRequest')
-        ck.require(len(sd) == 1 and util.awaited(e, sd[0][0]), 'R07e', 'apply_entry_to_state_machine:ApplyRequest', e.where(), 'request not sent')
+        ck.require(len(sd) >= 1 and all(util.awaited(e, _x[0]) for _x in sd), 'R07e', 'apply_entry_to_state_machine:ApplyRequest', e.where(), 'request not sent')
